@@ -258,18 +258,21 @@ CurSrc(c, off, n) == /\ off + n <= Len(src)
 CurBuf(c, b) == /\ curs' = [curs EXCEPT ![c] = IF bufs[b].cap = 0 THEN NullCur
                                                 ELSE [base |-> b, off |-> 0, len |-> BLen(b)]]
                 /\ UNCHANGED <<bufs, src>>
-CurBig(c, n) == /\ n > HALF
+CurBig(c, n) == /\ n >= HALF
                 /\ curs' = [curs EXCEPT ![c] = [base |-> ONEB, off |-> 0, len |-> n]]
                 /\ UNCHANGED <<bufs, src>>
 CurCopy(d, c) == curs' = [curs EXCEPT ![d] = curs[c]] /\ UNCHANGED <<bufs, src>>
 
-(* advance / advance_nospec: refused (NULL result, cursor untouched) when n exceeds the length or either exceeds SIZE_MAX/2 *)
+(* advance / advance_nospec: refused (NULL result, cursor untouched) when n exceeds the length or either exceeds SIZE_MAX/2. *)
+(* A cursor of length exactly SIZE_MAX/2 may be served or refused (plain advance serves it, the nospec family refuses it);  *)
+(* a refusal must leave the cursor untouched like every other failure.                                                     *)
 AdvOk(cu, n) == ~(cu.len > HALF \/ n > HALF \/ n > cu.len)
+MayRefuse(cu) == cu.len = HALF
 AdvRv(c, n) == IF AdvOk(curs[c], n) THEN Sub(curs[c], 0, n) ELSE NullCur
 ReadOut(c, n) == IF n > 0 /\ n <= 4096 /\ AdvOk(curs[c], n) THEN Take(CBytes(curs[c]), n) ELSE <<>>
 CurAdvance(c, n, d, rv) ==
     /\ curs[c].base # STALE /\ d # c
-    /\ IF AdvOk(curs[c], n)
+    /\ IF AdvOk(curs[c], n) /\ ~(MayRefuse(curs[c]) /\ rv = NullCur)
        THEN /\ rv = Sub(curs[c], 0, n)
             /\ curs' = SetCur([curs EXCEPT ![c] = Sub(@, n, @.len - n)], d, rv)
        ELSE /\ rv = NullCur
@@ -279,7 +282,7 @@ CurAdvance(c, n, d, rv) ==
 (* read n bytes: n = 0 succeeds trivially; short read => cursor unchanged *)
 Read(c, n, ok, out) ==
     /\ curs[c].base # STALE
-    /\ ok <=> (n = 0 \/ AdvOk(curs[c], n))
+    /\ IF n = 0 THEN ok ELSE IF AdvOk(curs[c], n) THEN (ok \/ MayRefuse(curs[c])) ELSE ~ok
     /\ IF ok /\ n > 0
        THEN /\ Readable(curs[c])
             /\ out = Take(CBytes(curs[c]), n)
@@ -300,7 +303,7 @@ ReadHexU8(c, ok, v) ==
 ReadAndFill(c, b, ok) ==
     /\ curs[c].base # STALE /\ curs[c].base # b           \* restrict: no overlap
     /\ LET n == bufs[b].cap IN
-       /\ ok <=> (n = 0 \/ AdvOk(curs[c], n))
+       /\ IF n = 0 THEN ok ELSE IF AdvOk(curs[c], n) THEN (ok \/ MayRefuse(curs[c])) ELSE ~ok
        /\ IF ok /\ n > 0
           THEN /\ Readable(curs[c])
                /\ bufs' = [bufs EXCEPT ![b].data = Take(CBytes(curs[c]), n)]
